@@ -77,6 +77,7 @@ type Contract struct {
 	Line      int
 	Opts      map[string]string
 	Covers    bool
+	Conforms  bool
 }
 
 type SpecFunc struct {
@@ -521,6 +522,10 @@ func parseSpecs(lines []ContractLine) *Specs {
 				cur.NoBody = true
 			case "covers":
 				cur.Covers = true
+			case "conforms":
+				// iface contract checked against every repository implementor
+				cur.Conforms = true
+				cur.Trusted = false
 			case "opt":
 				f := strings.SplitN(body, "=", 2)
 				if len(f) == 2 {
